@@ -3,6 +3,7 @@ package rig
 import (
 	"errors"
 	"fmt"
+	"runtime"
 	"sync"
 	"time"
 
@@ -30,7 +31,8 @@ type Store struct {
 	calls     []StoreCall
 	saves     int
 	FailSaves map[int]bool // 1-based index of Save calls that fail
-	Delay     func(op string, n int) time.Duration
+	Delay     func(op string, n int) time.Duration // virtual sleep inside the call (never with concurrent callers: a goroutine queued on a mutex is not durably blocked, so virtual time would stop)
+	Yield     func(op string, n int) int           // number of runtime.Gosched() calls inside the call (schedule perturbation that is safe under locks)
 	Log       *EventLog
 	nCalls    int
 }
@@ -45,15 +47,22 @@ func NewStore(inner *memory.Storage) *Store {
 var ErrInjected = errors.New("injected store failure")
 
 func (s *Store) delay(op string) {
-	if s.Delay == nil {
+	if s.Delay == nil && s.Yield == nil {
 		return
 	}
 	s.mu.Lock()
 	s.nCalls++
 	n := s.nCalls
 	s.mu.Unlock()
-	if d := s.Delay(op, n); d > 0 {
-		time.Sleep(d)
+	if s.Yield != nil {
+		for k := s.Yield(op, n); k > 0; k-- {
+			runtime.Gosched()
+		}
+	}
+	if s.Delay != nil {
+		if d := s.Delay(op, n); d > 0 {
+			time.Sleep(d)
+		}
 	}
 }
 
